@@ -41,12 +41,12 @@ MIN_COUNTERS = {
               'park_points_reached': 25, 'raising_tasks': 20,
               'clear_cases': 6, 'lock_owned_checks': 1500, 'move_cases': 6,
               'moved_while_pending': 20, 'tempo_changes_from_plain_thread': 1000,
-              'map_change_cases': 12},
+              'map_change_cases': 12, 'cmdperiod_in_task_cases': 4},
     'thorough': {'wakes_checked': 50000, 'order_pairs_checked': 5000,
                  'park_points_reached': 150, 'raising_tasks': 500,
                  'clear_cases': 40, 'lock_owned_checks': 50000, 'move_cases': 40,
                  'moved_while_pending': 500, 'tempo_changes_from_plain_thread': 20000,
-                 'map_change_cases': 300},
+                 'map_change_cases': 300, 'cmdperiod_in_task_cases': 20},
 }
 
 LATE_STRESS = 6.0
@@ -1367,6 +1367,10 @@ def run_clear(spec, acc):
                 etempo_case(h, acc, rng, vid[0])
             if ck == 'TempoClock' or (ck_full == 'TempoClock-stop2' and clock.running()):
                 clock.stop()
+            if ck_full == 'TempoClock-stop2':
+                for where in ('own', 'other'):
+                    vid[0] += 1
+                    cmdperiod_in_task_case(h, acc, rng, vid[0], where)
     h.report_lockmon(acc)
     acc.maxi('max_host_oversleep_s', h.watch.max_oversleep)
 
@@ -1688,6 +1692,68 @@ def run_mapchange(spec, acc):
             map_change_case(h, acc, rng, vid, how, who)
     h.report_lockmon(acc)
     acc.maxi('max_host_oversleep_s', h.watch.max_oversleep)
+
+
+def cmdperiod_in_task_case(h, acc, rng, vid, where):
+    """CmdPeriod.run() (clears every clock, stops the non-permanent tempo clocks)
+    called by a task: `where` = 'own' - a task of the tempo clock itself, with
+    other tasks due at the very same beat behind it and later; 'other' - a task
+    of SystemClock that keeps the library lock for 40 ms while a task of the
+    tempo clock becomes due.  Everything pending when run() is called is
+    cancelled: none of those tasks may be awakened afterwards."""
+    from sc3.base.functions import Function
+    from sc3.base.systemactions import CmdPeriod
+    clk = h.clk
+    clock = h.new_tempo(2.0, vid)
+    time.sleep(0.05)
+    woke = []
+    called = []
+
+    def mk(name):
+        def f():
+            woke.append((name, h.main.elapsed_time()))
+        return Function(f)
+
+    def x_own():
+        called.append(h.main.elapsed_time())
+        CmdPeriod.run()
+
+    def x_other():
+        time.sleep(0.04)            # the tempo clock's task becomes due meanwhile
+        called.append(h.main.elapsed_time())
+        CmdPeriod.run()
+    b = clock.elapsed_beats() + 0.3
+    if where == 'own':
+        clock.sched_abs(b, Function(x_own))
+        for name in ('same-beat-1', 'same-beat-2'):
+            clock.sched_abs(b, mk(name))
+        clock.sched_abs(b + 0.05, mk('later'))
+    else:
+        t = h.main.elapsed_time() + 0.15
+        clk.SystemClock.sched_abs(t, Function(x_other))
+        clock.sched_abs(clock.secs2beats(t + 0.02), mk('due-while-caller-runs'))
+        clock.sched_abs(clock.secs2beats(t + 0.2), mk('later'))
+    t_end = time.time() + 3.0
+    while not called and time.time() < t_end:
+        time.sleep(0.01)
+    time.sleep(0.5)
+    acc.count('cmdperiod_in_task_cases')
+    acc.count('cmdperiod_in_task_cases/' + where)
+    acc.case(h64(('cmdperiod-in-task', where, vid)), nontrivial=True)
+    if not called:
+        acc.count('cmdperiod_in_task_not_called')
+    else:
+        after = [w for w in woke if w[1] >= called[0]]
+        if after:
+            acc.violation(f'C08/woken-after-stop/TempoClock/cmd-period-called-by-a-task-of-'
+                          f'{"the-clock-itself" if where == "own" else "another-clock"}',
+                          {'awakened_after_the_call': [w[0] for w in after],
+                           'seconds_after': [round(w[1] - called[0], 6) for w in after]})
+    if clock.running():
+        try:
+            clock.stop()
+        except Exception:
+            pass
 
 
 def tempo_hammer_case(h, acc, rng, vid):
